@@ -12,7 +12,16 @@ LEVEL_TEXT = ("For every pair of nodes (tree id + address, any tree size) the Le
               "(thorough 7) nodes and across two trees, plus random larger trees.")
 LEVEL_NOTE = ("Trusted: Lean kernel, standard axioms; the mirror lean/Anytree/Model/Walker.lean; node identity modelled as "
               "(tree, address) equality.")
-THEOREMS = []
+THEOREMS = [
+    ("Anytree.Props.C15.walk_eq_spec", "full"),
+    ("Anytree.Props.C15.calcCommon_eq_lcp", "full"),
+    ("Anytree.Props.C15.walk_different_trees", "full"),
+    ("Anytree.Props.C15.common_is_lca", "full"),
+    ("Anytree.Props.C15.common_of_ancestor", "full"),
+    ("Anytree.Props.C15.walk_chains", "full"),
+    ("Anytree.Props.C15.walk_simple_path", "full"),
+    ("Anytree.Props.C15.walk_mirror", "full"),
+]
 NOT_COVERED = []
 RULE = ("every ordered pair of nodes of every shape up to N nodes (quick 5, thorough 7) incl. a second tree; random shapes up "
         "to 15/40 nodes with 30 random pairs. Distinct = distinct case; non-trivial = first tree has at least 3 nodes.")
